@@ -59,6 +59,13 @@ func seedPayloads() []*V {
 	add(&V{K: "bytess", Cs: []int{1}})
 	add(ptr(str(1)))
 	add(ptr(&V{K: "bytes", C: 1}))
+	// by value: a string / []byte cannot be set (error, nothing forwarded); a struct's own strings cannot either, but
+	// whatever it refers to is filtered - in the private copy, never in the caller's value
+	add(str(1))
+	add(&V{K: "bytes", C: 1})
+	add(st(fld("F1", sec, str(1)), fld("F2", sec, &V{K: "strs", Cs: []int{2, 3}}), fld("F3", nil, &V{K: "bytess", Cs: []int{4}}), fld("F4", nil, imap("k1", str(5))),
+		fld("F5", nil, ptr(inner(6))), fld("F6", nil, sliceOf(inner(9))), fld("F7", nil, sliceOf(ptr(inner(12)))), fld("F8", nil, &V{K: "map", Keys: []string{"k1"}, Vals: []*V{str(15)}}),
+		fld("F9", nil, tmapv(pubTag, "k1", str(16), "k2", str(17)))))
 	// untagged maps as fields: strings, byte slices, string slices, nested maps, pointers to structs
 	add(ptr(st(fld("F1", nil, imap("k1", str(1), "k2", &V{K: "bytes", C: 2}, "k3", &V{K: "strs", Cs: []int{3}}, "k4", &V{K: "int", I: 9}, "k5", imap("k1", str(4)), "k6", ptr(inner(5)))))))
 	add(ptr(st(fld("F1", nil, &V{K: "map", Keys: []string{"k1", "k2"}, Vals: []*V{str(1), str(2)}}))))
@@ -84,6 +91,10 @@ func seedPayloads() []*V {
 	add(sliceOf(tmapv(nil, "k1", str(1))))
 	add(tmapv([]PTag{{Ptr: "/k1/k1", Class: "sensitive"}}, "k1", imap("k1", str(1), "k2", str(2)), "k2", str(3)))
 	add(tmapv([]PTag{{Ptr: "/k2", Class: "public"}, {Ptr: "/k1/k1", Class: "sensitive"}}, "k1", imap("k1", str(1), "k2", str(2)), "k2", str(3)))
+	add(tmapv([]PTag{{Ptr: "/k1/k1", Class: "public"}}, "k1", imap("k1", str(1), "k2", str(2))))
+	add(tmapv([]PTag{{Ptr: "/k2", Class: "public"}, {Ptr: "/k1/k1", Class: "public"}, {Ptr: "/k1/k2", Class: "sensitive", Op: "hmac-sha256"}, {Ptr: "/k1/k9", Class: "secret"}},
+		"k1", imap("k1", str(1), "k2", str(2), "k3", str(3)), "k2", str(4), "k3", str(5)))
+	add(ptr(st(fld("F1", nil, tmapv([]PTag{{Ptr: "/k1/k1", Class: "public"}}, "k1", imap("k1", str(1), "k2", st(fld("F1", sens, str(2)))), "k2", str(3))))))
 	add(tmapv([]PTag{{Ptr: "k1", Class: "secret"}}, "k1", str(1)))
 	add(tmapv([]PTag{{Ptr: "/k1", Class: "bogus"}}, "k1", str(1)))
 	add(tmapv([]PTag{{Ptr: "/k1", Class: "bogus"}}, "k2", str(1)))
